@@ -12,4 +12,3 @@ CONSTANTS
   LockScope = "code"
 VIEW View
 INVARIANTS TypeOK OnlyRacesHurt NeverTwice LocInternOK TxnOwner EmitCase
-PROPERTY Terminates
